@@ -260,7 +260,7 @@ Qed.
 
 (* updateFreeSpace always has a runner left to visit while it is inside its loop *)
 Fixpoint ufs_ok (p : pc) : Prop :=
-  match p with PUfsR _ _ rest => rest <> [] | TEntry p' => ufs_ok p' | _ => True end.
+  match p with PUfsR _ _ rest => rest <> [] | PFvR _ rest _ => rest <> [] | TEntry p' => ufs_ok p' | _ => True end.
 
 Definition I_ufs (s : state) : Prop := Forall ufs_ok (thr s).
 
@@ -425,4 +425,123 @@ Proof.
   - destruct (I_locks_Reach _ _ _ Hf R) as (_ & _ & C). eapply I_id_step; eauto.
     + eapply L2_Reach; eauto.
     + eapply L3_Reach; eauto.
+Qed.
+
+(* ------------------------------------------------------------------ a pending loop that waits for an unload gets its token *)
+
+Fixpoint ptarget (p : pc) : list nat :=
+  match p with
+  | PNr _ r | PPing _ r | PUse _ r | PExp _ r | PExpSend _ r | PWait _ r => [r]
+  | PFvR _ rest first => first :: rest
+  | TEntry p' => ptarget p'
+  | _ => []
+  end.
+
+Fixpoint tokpend (p : pc) : nat :=
+  match p with CEV _ | CEFin | CETok => 1 | TEntry p' => tokpend p' | _ => 0 end.
+
+(* every runner the pending loop has looked up and may have to wait for is still registered, or an "unloaded"
+   event is available or about to be produced *)
+Definition I_tk (s : state) : Prop :=
+  forall t p r, nth_error (thr s) t = Some p -> In r (ptarget p) ->
+  (rclosed s r = false /\ cnt (freshr r) (thr s) = 0) \/ 1 <= unlq s + cnt tokpend (thr s).
+
+Lemma wake_ptarget t' p : ptarget (wake t' p) = ptarget p.
+Proof. destruct p; simpl; auto; destruct (Z.leb u t'); reflexivity. Qed.
+Lemma wake_tokpend t' p : tokpend (wake t' p) = tokpend p.
+Proof. destruct p; simpl; auto; destruct (Z.leb u t'); reflexivity. Qed.
+
+Lemma tick_unlq s d : unlq (tick s d) = unlq s.
+Proof. unfold tick. destruct (fire (runners s) 0 (now s + d)%Z); reflexivity. Qed.
+
+Lemma ptarget_isP p r : In r (ptarget p) -> isP p = 1.
+Proof. induction p; simpl; intros Hin; try tauto; auto. Qed.
+
+Section StepTK.
+Variables (c : config) (s s' : state) (l : label) (e : list event).
+Hypothesis Hf : fixed c.
+Hypothesis IO : I_one s.
+Hypothesis I2 : L2 s.
+Hypothesis I : I_tk s.
+Hypothesis H : step c s l = Some (s', e).
+
+Lemma registered_not_fresh m r : lookup (loaded s) m = Some r -> rclosed s r = false /\ cnt (freshr r) (thr s) = 0.
+Proof.
+  intros L. destruct (l2_loaded s I2 _ _ L) as [_ K]. split; auto.
+  destruct (cnt (freshr r) (thr s)) eqn:C; auto. exfalso.
+  destruct (fresh_thread s r ltac:(lia)) as (t & p & q & Ht & Hp).
+  destruct (l2_fresh s I2 _ _ _ _ Ht Hp) as (_ & _ & F4). eapply F4; eauto.
+Qed.
+
+Lemma snapshot_registered r : In r (map snd (loaded s)) -> rclosed s r = false /\ cnt (freshr r) (thr s) = 0.
+Proof.
+  intros Hin. destruct (loaded_value_lookup _ _ (l2_nodup s I2) Hin) as (m & L). eapply registered_not_fresh; eauto.
+Qed.
+
+Lemma onlyP t1 t2 p1 p2 :
+  t1 <> t2 -> nth_error (thr s) t1 = Some p1 -> nth_error (thr s) t2 = Some p2 -> isP p1 = 1 -> isP p2 = 1 -> False.
+Proof. intros N H1 H2 P1 P2. pose proof (cnt_two isP _ _ _ _ _ N H1 H2). destruct IO as [IP _]. lia. Qed.
+
+Ltac tk_sums r Ep :=
+  repeat (erewrite (cnt_upd_eq tokpend) by (first [exact Ep | apply nth_error_snoc_old; exact Ep]));
+  repeat (erewrite (cnt_upd_eq (freshr r)) by (first [exact Ep | apply nth_error_snoc_old; exact Ep]));
+  rewrite ?cnt_snoc.
+
+Lemma I_tk_step : I_tk s'.
+Proof.
+  unfold I_tk in *. fix_cfg c Hf. intros t' p' r' Hn Hin.
+  destruct l as [sp|q0|m|d|t alt].
+  - step_cases H; unfold rclosed in *; simpl in *; eauto.
+  - step_cases H; unfold rclosed in *; simpl in *; eauto.
+  - step_cases H; unfold rclosed in *; simpl in *. apply nth_error_snoc in Hn. destruct Hn as [Hn|[-> ->]]; [|simpl in Hin; tauto].
+    destruct (I _ _ _ Hn Hin) as [[A B]|A]; [left|right]; rewrite ?cnt_snoc; simpl; auto.
+    split; auto. assert (Z : freshr r' (TEntry (AXLm m)) = 0) by reflexivity. lia. lia.
+  - step_cases H. apply tick_thr_cases in Hn. destruct Hn as [(p0 & Hn & ->)|(r & ->)]; [|simpl in Hin; tauto].
+    rewrite wake_ptarget in Hin. rewrite tick_rclosed, tick_unlq, tick_thr, !cnt_app.
+    rewrite !wake_cnt by (intros; first [apply wake_tokpend | apply wake_freshr]).
+    rewrite (fire_pcs_zero (freshr r')) by reflexivity. rewrite (fire_pcs_zero tokpend) by reflexivity.
+    destruct (I _ _ _ Hn Hin) as [[A B]|A]; [left; split; auto; lia|right; lia].
+  - unfold step in H. destruct (nth_error (thr s) t) as [p|] eqn:Ep; try discriminate.
+    pose proof (cnt_ge tokpend _ _ _ Ep) as GeT. pose proof (cnt_ge (freshr r') _ _ _ Ep) as GeF.
+    destruct p; step_cases H; simpl in Hn; thr_cases Hn; simpl in Hin; try tauto;
+    (* another thread's targets: the stepping thread is not the pending loop *)
+    try (destruct (I _ _ _ Hn Hin) as [[A B]|A];
+         [ unfold rclosed in *; simpl in *; unfold getr, getq in *;
+           first [ left; split; [acc_norm; eqb_cases; auto; fail | tk_sums r' Ep; unfold freshr in *; simpl in *; unfold eqn in *; lia ]
+                 | right; simpl; tk_sums r' Ep; simpl in *; lia ]
+         | right; simpl; tk_sums r' Ep; simpl in *; lia ]; fail).
+    (* a thread other than the stepping pending loop has targets: there is only one pending loop *)
+    all: try (match goal with Hne : _ <> _ |- _ =>
+                exfalso; eapply (onlyP _ _ _ _ Hne Hn Ep); [eapply ptarget_isP; eauto|reflexivity] end).
+    (* the pending loop consumed an unloaded event without moving (PSel): it has no targets *)
+    all: try (match goal with |- context [s_unlq s _] =>
+                destruct (Nat.eq_dec t' t) as [->|NE];
+                [ rewrite Ep in Hn; inv Hn; simpl in Hin; tauto
+                | exfalso; eapply (onlyP _ _ _ _ NE Hn Ep); [eapply ptarget_isP; eauto|reflexivity] ] end).
+    (* lookups: the runner found is registered *)
+    all: try (match goal with L : lookup (loaded s) _ = Some ?n |- _ =>
+                destruct Hin as [<-|[]]; destruct (registered_not_fresh _ _ L) as [A B]; left;
+                unfold rclosed in *; simpl; split; auto; tk_sums n Ep; unfold freshr in *; simpl in *; lia end).
+    (* the stepping pending loop keeps (a subset of) its targets *)
+    all: try (match goal with
+              | Ep : nth_error (thr s) _ = Some ?old |- _ =>
+                assert (Hold : In r' (ptarget old)) by (simpl in *; tauto);
+                destruct (I _ _ _ Ep Hold) as [[A B]|A];
+                [ left; unfold rclosed, getr, getq in *; simpl in *; split;
+                  [ acc_norm; eqb_cases; auto | tk_sums r' Ep; unfold freshr in *; simpl in *; unfold eqn in *; lia ]
+                | right; simpl; tk_sums r' Ep; simpl in *; lia ]
+              end).
+    (* PFv: the candidates are registered *)
+    assert (Hreg : rclosed s r' = false /\ cnt (freshr r') (thr s) = 0).
+    { apply snapshot_registered. apply (vsort_In s). rewrite E0. simpl in Hin. destruct Hin as [<-|Hin]; [left; auto|exact Hin]. }
+    destruct Hreg as [A B]. left. unfold rclosed in *. simpl. split; auto. tk_sums r' Ep. unfold freshr in *. simpl in *. lia.
+Qed.
+
+End StepTK.
+
+Lemma I_tk_Reach c s ev : fixed c -> Reach c s ev -> I_tk s.
+Proof.
+  intros Hf R. induction R as [m|s ev l s' e R IH Hs].
+  - intros t p r Ht Hin. destruct t as [|[|[|t]]]; simpl in Ht; try discriminate; inv Ht; simpl in Hin; tauto.
+  - destruct (I_locks_Reach _ _ _ Hf R) as (_ & _ & C). eapply I_tk_step; eauto. eapply L2_Reach; eauto.
 Qed.
